@@ -256,6 +256,83 @@ def sizes (line : Nat) (mults : Option IV) (qa qb qc : Option Int) : Option Size
     some ⟨sizeOf line 0 (minMult line 0 qa s.x), sizeOf line 1 (minMult line 1 qb s.y),
           sizeOf line 2 (minMult line 2 qc s.z)⟩
 
+/-! ### parameter handling: which shift, core centre and boundary width the generators use
+
+  `Dislocation.set_shift` (called by `__init__`, and by `monopole` / `periodicarray` only when a `shift` or a
+  `shiftindex` is given in the call), the `center` / `centerscale` and `boundarywidth` / `boundaryscale`
+  conversions at the head of `monopole` and `periodicarray`.  The object keeps the last shift it was given. -/
+
+/-- Python list indexing `l[i]` (negative indices count from the end); `none` = IndexError. -/
+def pyGet? {α : Type} (l : List α) (i : Int) : Option α :=
+  if 0 ≤ i then l[i.toNat]?
+  else if -i ≤ (l.length : Int) then l[((l.length : Int) + i).toNat]? else none
+
+/-- the three shift arguments of `__init__`, `set_shift`, `monopole`, `periodicarray`. -/
+structure ShiftArgs (K : Type) where
+  shift : Option (V3 K)
+  index : Option Int
+  scale : Bool
+
+section
+variable {K : Type} [Add K] [Mul K] [Zero K]
+
+/-- `set_shift(shift, shiftindex, shiftscale)`: an explicitly given vector is taken as it is or, with
+    `shiftscale`, relative to the box vectors of the rotated cell (`vector_crystal_to_cartesian`: the *row*
+    combination `s · vects`); an index selects from the list of offered shifts, no argument selects the first;
+    `shiftscale` says how a *given vector* is read and nothing else.
+    Errors: `value` (shift and shiftindex both given), `index` (IndexError of the list). -/
+def setShift (vects : M3 K) (shifts : List (V3 K)) (a : ShiftArgs K) : Except String (V3 K) :=
+  match a.shift, a.index with
+  | some _, some _ => .error "value"
+  | some s, none => .ok (if a.scale then M3.vecMul s vects else s)
+  | none, some i => match pyGet? shifts i with
+    | some s => .ok s
+    | none => .error "index"
+  | none, none => match shifts with
+    | s :: _ => .ok s
+    | [] => .error "index"
+
+/-- a call on a `Dislocation` object that touches its shift: `set_shift(...)` itself, or a generator
+    (`monopole(...)`, `periodicarray(...)`) with the shift arguments it was given. -/
+inductive ShiftCall (K : Type) where
+  | set (a : ShiftArgs K)
+  | gen (a : ShiftArgs K)
+
+/-- does the generator call `set_shift` at all (`if shift is not None or shiftindex is not None`). -/
+def ShiftArgs.given {K : Type} (a : ShiftArgs K) : Bool := a.shift.isSome || a.index.isSome
+
+/-- one call on an object whose current shift is `cur`: new current shift and what the call used (or its
+    refusal).  A refused call leaves the shift of the object as it was; a generator called without `shift` and
+    `shiftindex` uses the current one whatever `shiftscale` says. -/
+def ShiftCall.step (vects : M3 K) (shifts : List (V3 K)) (cur : V3 K) : ShiftCall K → V3 K × Except String (V3 K)
+  | .set a => match setShift vects shifts a with
+    | .ok s => (s, .ok s)
+    | .error e => (cur, .error e)
+  | .gen a =>
+    if a.given then
+      match setShift vects shifts a with
+      | .ok s => (s, .ok s)
+      | .error e => (cur, .error e)
+    else (cur, .ok cur)
+
+/-- a history of calls on one object: final shift and the reply of every call. -/
+def runShiftCalls (vects : M3 K) (shifts : List (V3 K)) : V3 K → List (ShiftCall K) → V3 K × List (Except String (V3 K))
+  | cur, [] => (cur, [])
+  | cur, c :: cs =>
+    let r := c.step vects shifts cur
+    let rest := runShiftCalls vects shifts r.1 cs
+    (rest.1, r.2 :: rest.2)
+
+/-- `center` (default the origin) and `centerscale` (relative to the box vectors of the rotated cell). -/
+def resolveCenter (vects : M3 K) (center : Option (V3 K)) (scale : Bool) : V3 K :=
+  let c := center.getD ⟨0, 0, 0⟩
+  if scale then M3.vecMul c vects else c
+
+/-- `boundarywidth` and `boundaryscale` (relative to the `a` lattice parameter of the *given* unit cell). -/
+def resolveWidth (ucellA width : K) (scale : Bool) : K := if scale then width * ucellA else width
+
+end
+
 /-! ### reference system: supersize, shift, wrap -/
 
 abbrev Atom := C04.Atom
